@@ -96,8 +96,13 @@ def gen_mesh_case(rng):
         if p not in pool:
             pool.append(p)
     n = rng.randint(1, 8)
-    mesh = []
+    mesh, tries = [], 0
     while len(mesh) < n:
+        tries += 1
+        if tries % 40 == 0:                     # a pool of collinear points has no proper triangle: enlarge it
+            p = [rng.randint(-3, 3) for _ in range(3)]
+            if p not in pool:
+                pool.append(p)
         t = rng.sample(pool, 3)
         a, b, c = (np.array(x) for x in t)
         if np.any(np.cross(b - a, c - a)):      # Triangle objects want a non-degenerate triangle
